@@ -224,15 +224,19 @@ def check_after_crash(w, top, final, scn, prior_asc, prior_gens, label, ctx, fgw
                 require(e["digest"] == refhash.digest("c4", data), "half-present", "%s: chain digest of %s does not match the file" % (label, p))
     # next commands
     target = hist.wpath(scn, final["root"])
-    for cmd in ("info", "verify", "create"):
+    for cmd in ("info", "verify", "create_short", "info", "create", "info"):
         if cmd == "info":
             res = w.info(target, frozen=LATER)
             allowed = (0, 30)
+        elif cmd == "create_short":
+            # a later run whose manifest is shorter than the interrupted one (fewer formats): leftovers must not leak into it
+            res = w.create(target, final["formats"][:1], flags=["-n"], frozen=LATER)
+            allowed = (0, 10, 11)
         elif cmd == "verify":
             res = w.verify(target, frozen=LATER)
             allowed = (0, 10, 11, 21, 30)
         else:
-            res = w.create(target, final["formats"], frozen=LATER)
+            res = w.create(target, list(final["formats"]) + [f for f in ("md5", "sha1", "c4") if f not in final["formats"]][:2], frozen=LATER)
             allowed = (0, 10, 11)
         if res.exc is not None or res.exit_code not in allowed:
             v = Violation("next-command", "%s: afterwards `%s` does not load the history normally: %s" % (label, cmd, res.brief()), res)
